@@ -312,6 +312,8 @@ class Ctx:
         done = any(r.get("t") == "done" for r in recs)
         if "[build failed]" in out or "[setup failed]" in out or (p.returncode != 0 and not recs):
             raise Infra("harness build/run failed (exit %d)\n%s" % (p.returncode, "\n".join(out.splitlines()[-60:])))
+        if "panic: test timed out" in out:
+            raise Infra("harness test timed out (go test -timeout)\n%s" % "\n".join(out.splitlines()[-40:]))
         if not done:
             raise Infra("harness did not complete (no 'done' record; exit %d)\n%s" %
                         (p.returncode, "\n".join(out.splitlines()[-80:])))
